@@ -220,6 +220,21 @@ void genPfor(Prng& r, Plan& p, int tier)
 		i1 = -3 + (int64_t)((t / 12) % 44);
 		i0 = -3 + (int64_t)(t / (12 * 44));
 	}
+	if (idx % 2 == 1 && r.below(12) == 0)
+	{
+		// "sampled larger ranges": short ranges at the two ends of int, where index + stride leaves the type
+		int64_t len = (int64_t)r.below(41);
+		if (r.below(2))
+		{
+			i1 = 2147483647LL - (int64_t)r.below(3);
+			i0 = i1 - len;
+		}
+		else
+		{
+			i0 = -2147483648LL + (int64_t)r.below(3);
+			i1 = i0 + len;
+		}
+	}
 	p.p["i0"] = i0;
 	p.p["i1"] = i1;
 	p.p["n"] = n;
@@ -229,12 +244,13 @@ void genPfor(Prng& r, Plan& p, int tier)
 
 void runPfor(const Plan& p)
 {
-	int i0 = (int)p.get("i0"), i1 = (int)p.get("i1"), n = (int)p.get("n", 1);
+	int64_t a0 = std::max<int64_t>(-2147483648LL, std::min<int64_t>(2147483647LL, p.get("i0"))), a1 = std::max<int64_t>(-2147483648LL, std::min<int64_t>(2147483647LL, p.get("i1")));
+	if (a1 - a0 > 4000)
+		a1 = a0 + 4000;
+	int i0 = (int)a0, i1 = (int)a1, n = (int)p.get("n", 1);
 	if (n < 1) n = 1;
 	if (n > 12) n = 12;
-	if (i0 < -2000) i0 = -2000;
-	if (i1 > 2000) i1 = 2000;
-	int lo = std::min(i0, i1) - 16, hi = std::max(i0, i1) + 16;
+	const int64_t lo = std::min(a0, a1) - 16, hi = std::max(a0, a1) + 16; // (64-bit: the range may touch either end of int)
 	std::vector<int> cnt((size_t)(hi - lo + 1), 0);
 	std::vector<int> finished((size_t)(hi - lo + 1), 0);
 	volatile int inflight = 0;
@@ -247,36 +263,38 @@ void runPfor(const Plan& p)
 	sim::event("parallel_for %d %d n=%d", i0, i1, n);
 	asl::Thread::parallel_for(i0, i1, [=](int i) {
 		__sync_fetch_and_add(infl, 1);
-		if (i < lo || i > hi)
+		if ((int64_t)i < lo || (int64_t)i > hi)
 			__sync_fetch_and_add(oor, 1);
 		else
-			__sync_fetch_and_add(&cp[i - lo], 1);
+			__sync_fetch_and_add(&cp[(int64_t)i - lo], 1);
 		b();
-		if (i >= lo && i <= hi)
-			fp[i - lo] = 1;
+		if ((int64_t)i >= lo && (int64_t)i <= hi)
+			fp[(int64_t)i - lo] = 1;
 		__sync_fetch_and_sub(infl, 1);
 	}, n);
 	sim::NoSched ns;
-	if (i1 - i0 >= 2 && n >= 2)
+	if (a1 - a0 >= 2 && n >= 2)
 		sim::setNontrivial();
-	sim::mixCaseSig((uint64_t)(i0 + 5000) * 100003 + (uint64_t)(i1 + 5000) * 13 + (uint64_t)n);
+	if (a1 > 2147483647LL - 12 || a0 < -2147483648LL + 12)
+		sim::probe("range_at_an_end_of_int");
+	sim::mixCaseSig((uint64_t)(a0 + 5000) * 100003 + (uint64_t)(a1 + 5000) * 13 + (uint64_t)n);
 	if (inflight != 0)
 		sim::fail("returned_early", "parallel_for", "parallel_for(%d,%d,n=%d) returned with %d invocations in flight", i0, i1, n, inflight);
 	if (outOfRange)
 		sim::fail("wrong_index", "parallel_for", "parallel_for(%d,%d,n=%d) invoked f with %d indices far outside the range", i0, i1, n, outOfRange);
-	for (int i = lo; i <= hi; i++)
+	for (int64_t i = lo; i <= hi; i++)
 	{
-		int want = (i >= i0 && i < i1) ? 1 : 0;
+		int want = (i >= a0 && i < a1) ? 1 : 0;
 		int c = cnt[(size_t)(i - lo)];
 		if (c != want)
 		{
-			sim::fail(c > want ? (want ? "exactly_once" : "wrong_index") : "missed_index", "parallel_for", "parallel_for(%d,%d,n=%d): f(%d) invoked %d times, expected %d", i0, i1, n, i,
+			sim::fail(c > want ? (want ? "exactly_once" : "wrong_index") : "missed_index", "parallel_for", "parallel_for(%d,%d,n=%d): f(%lld) invoked %d times, expected %d", i0, i1, n, (long long)i,
 			          c, want);
 			break;
 		}
 		if (want && !finished[(size_t)(i - lo)])
 		{
-			sim::fail("returned_early", "parallel_for", "parallel_for(%d,%d,n=%d): f(%d) had not completed at return", i0, i1, n, i);
+			sim::fail("returned_early", "parallel_for", "parallel_for(%d,%d,n=%d): f(%lld) had not completed at return", i0, i1, n, (long long)i);
 			break;
 		}
 	}
